@@ -60,7 +60,7 @@ class Check:
     }
 
     def runs(self, tier):
-        return 1600 if tier == 'quick' else 60000
+        return 3000 if tier == 'quick' else 100000
 
     def wall_cap(self, tier):
         return 600 if tier == 'quick' else 6600
